@@ -40,8 +40,8 @@ PLAN = {
     # prop: tier: (mc configs, (tlc scenarios n, depth, overrides), [(generator profile, n)])
     "C01": {"quick": (["MC_Processor_quick.cfg"], (150, 14, {}), [("aggregation", 200), ("setchange", 150)]),
             "thorough": (["MC_Processor_thorough.cfg"], (3000, 18, {}), [("aggregation", 6000), ("setchange", 4000)])},
-    "C02": {"quick": (["MC_Processor_quick.cfg"], (150, 14, {"MaxBad": 1, "MaxInbound": 1}), [("aggregation", 150), ("setchange", 150), ("permutations", 40)]),
-            "thorough": (["MC_Processor_thorough.cfg"], (3000, 18, {"MaxBad": 1, "MaxInbound": 1}), [("aggregation", 4000), ("setchange", 4000), ("permutations", 400)])},
+    "C02": {"quick": (["MC_Processor_quick.cfg"], (150, 14, {"MaxBad": 1, "MaxInbound": 1}), [("aggregation", 150), ("setchange", 150), ("governance", 60), ("permutations", 40)]),
+            "thorough": (["MC_Processor_thorough.cfg"], (3000, 18, {"MaxBad": 1, "MaxInbound": 1}), [("aggregation", 4000), ("setchange", 4000), ("governance", 1500), ("permutations", 400)])},
     "C03": {"quick": (["MC_Processor_quick.cfg"], (100, 12, {"MaxBad": 4, "MaxInbound": 0}), [("byzantine", 250), ("setchange", 100)]),
             "thorough": (["MC_Processor_thorough.cfg"], (2000, 16, {"MaxBad": 6, "MaxInbound": 0}), [("byzantine", 5000), ("setchange", 2000)])},
     "C13": {"quick": (["MC_Processor_quick.cfg"], (150, 14, {"TimeSteps": "{31, 301, 3601}"}), [("adversarial", 300), ("cleanup", 100), ("setchange", 60)]),
